@@ -74,8 +74,8 @@ func (g *tplGen) expr(depth int) string {
 	case 13:
 		// a size-doubling (or value-sharing) function applied k times to a seed, and a consumer of the result
 		k := g.r.Range(3, 45)
-		body := hx.Pick(g.r, []string{"x & x", "array(x, x)", "object(\"a\", x, \"b\", x)", "x & \"-\" & x", "array(x, 1, x)", "join(array(x, x), x)", "replace(x, \"a\", x)", "x + x", "x * x"})
-		seed := hx.Pick(g.r, []string{"\"a\"", "1", "array(1)", "contact.name", "\"\"", "2"})
+		body := hx.Pick(g.r, []string{"x & x", "array(x, x)", "object(\"a\", x, \"b\", x)", "x & \"-\" & x", "array(x, 1, x)", "join(array(x, x), x)", "replace(x, \"a\", x)", "x + x", "x * x", "concat(x, x)", "concat(x, array(x))", "url_encode(x & \"é\")", "title(x) & upper(x)"})
+		seed := hx.Pick(g.r, []string{"\"a\"", "1", "array(1)", "array(1, 2)", "contact.name", "\"\"", "2"})
 		use := hx.Pick(g.r, []string{"text_length(%s)", "text(%s)", "json(%s)", "count(%s)", "format(%s)", "%s = 1", "unique(array(%s, %s))", "is_error(%s)", "%s", "contains(array(%s), 1)", "sort(array(%s, %s))"})
 		return "((d) => " + strings.ReplaceAll(use, "%s", strings.Repeat("d(", k)+seed+strings.Repeat(")", k)) + ")((x) => " + body + ")"
 	case 12:
